@@ -303,6 +303,11 @@ func main() {
 		}
 	}
 
+	// ---- 9b. delivery of the input as a dimension: every separator regime x terminator-pattern inputs x chunkings ----
+	for _, c := range deliveryCases(r, thorough) {
+		addCase(c)
+	}
+
 	// ---- 10. the goawk binary: command-line glue ----
 	for _, c := range cliCases(r, thorough) {
 		addCase(c)
